@@ -165,8 +165,8 @@ def oracle(h, out):
             # the target terminated command(s) of this call with CHECK CONDITION / UNIT ATTENTION without performing them
             if len(ut) == len(r["cdbs"]):
                 if "exn" not in r:
-                    return ("call %d: %s%s returned normally although the target terminated every command of the call (%d) with CHECK CONDITION, "
-                            "UNIT ATTENTION and performed none" % (i, m, tuple(pos[:2]), len(ut)))
+                    return ("call %d: %s%s returned normally although the target terminated every command of the call (%d) with CHECK CONDITION "
+                            "(a queued unit attention / deferred error) and performed none" % (i, m, tuple(pos[:2]), len(ut)))
                 continue                # reported to the caller, nothing was performed
             # a later command of the same call was performed: judged like any other call below
         ft = fits(m, pos, kw, bs, nblk)
@@ -350,7 +350,7 @@ def run(rep, tier, seed, summary):
             continue
         calls = list(h["calls"])
         for _ in range(urng.randint(1, 3)):
-            calls.insert(urng.randrange(len(calls) + 1), dict(m="_ua", n=urng.choice([1, 2, 2, 3])))
+            calls.insert(urng.randrange(len(calls) + 1), dict(m="_ua", n=urng.choice([1, 2, 2, 3]), kind=urng.randrange(4)))
         ua_hists.append(dict(h, calls=calls))
     ua_outs = run_impl(ua_hists) if ua_hists else []
     n_ua_bad = 0
